@@ -420,9 +420,67 @@ def _inv_validate_elements(L):
 
 
 # ----------------------------------------------------------------------------- container visits
+rvalid = z3.Function("rvalid", Obj, Obj, M.B)
+"""rvalid(S, v): the *relaxed* validator used by the Substitutor (SubstitutorValidator: `...` placeholders allowed,
+dict keys may be missing) reports no error for the container value v.  Uninterpreted: the relaxed container validation is
+an ASSUMED contract (its bodies are not verified); its consequences used by the Substitutor contracts are the axioms of
+`_rvalid_axioms` below, and the bounded complement exercises the real code."""
+
+
+def self_is_relaxed(c) -> bool:
+    if c.mode != "call" or "self" not in c.args:
+        return False
+    try:
+        return c.ex.hint_of(c.args["self"], c.st) == "SubstitutorValidator"
+    except Exception:
+        return False
+
+
+def relaxed_container_visit(c, cls: str) -> None:
+    """call-site contract of visit_<container> when the visitor is the SubstitutorValidator (assumed)"""
+    ct = c.ct
+    Sx = c.sym("schema", cls)
+    v = c.sym("value")
+    if c.has_arg("path"):
+        c.sym("path")
+    c.kwargs()
+    c.paths()
+    c.returns("ValidationResult")
+    c.raises()
+    c.ex.used_assumptions.add("SubstitutorValidator (relaxed validation of list / dict / any / alias values) is an ASSUMED "
+                              "contract: verdict = uninterpreted rvalid(schema, value); a passing list value is a list within "
+                              "the declared lengths, a passing dict value is a dict")
+    c.ensures("result", lambda r, post: z3.And(*S.is_result(ct, r)))
+    c.ensures("verdict", lambda r, post: S.no_errors(r) == rvalid(Sx, v))
+    c.ensures("errors-wf", lambda r, post: errs_alloc(S.errors_of(r), post.alloc))
+    c.ensures("path-frame", lambda r, post: path_frame(post))
+
+
+def _rvalid_axioms(ct) -> List[Any]:
+    Sx, v = z3.Consts("rvS rvv", Obj)
+    ln, mn, mx = S.prop(Sx, "len"), S.prop(Sx, "min_len"), S.prop(Sx, "max_len")
+    n = M.llen(v)
+    return [
+        z3.ForAll([Sx, v], z3.Implies(z3.And(rvalid(Sx, v), M.is_Ref(Sx), M.rcls(Sx) == ct.id("ListSchema")), z3.And(
+            M.isinstance_f(ct, v, "list"),
+            z3.Implies(ln != M.NilV, n == M.int_of(ln)), z3.Implies(mn != M.NilV, n >= M.int_of(mn)),
+            z3.Implies(mx != M.NilV, n <= M.int_of(mx)))), patterns=[rvalid(Sx, v)]),
+        z3.ForAll([Sx, v], z3.Implies(z3.And(rvalid(Sx, v), M.is_Ref(Sx), M.rcls(Sx) == ct.id("DictSchema")),
+                                      M.isinstance_f(ct, v, "dict")), patterns=[rvalid(Sx, v)]),
+    ]
+
+
+from pyvc.contracts import REG as _REGV  # noqa: E402
+_REGV.axiom_fns.append(_rvalid_axioms)
+
+
 def container_visit(cls: str, visitor: str = "Validator"):
     def body(c):
         ct = c.ct
+        if self_is_relaxed(c):
+            # the inherited body run by a SubstitutorValidator validates the members relaxedly: the strict verdict
+            # clause below would be unsound there
+            return relaxed_container_visit(c, cls)
         c.built_self(visitor)
         Sx = c.sym("schema", cls)
         v = c.sym("value")
@@ -624,3 +682,10 @@ def _inv_any(L):
                   z3.ForAll([j], z3.Implies(z3.And(0 <= j, j < L.i), z3.Not(S.conforms(M.lat(t, j), v))),
                             patterns=[M.lat(t, j)]),
                   _path_fixed(L))
+
+
+# the two overriding methods of the relaxed validator: assumed contracts (see rvalid)
+for _m, _cls in [("visit_list", "ListSchema"), ("visit_dict", "DictSchema")]:
+    contract("d42/substitution/_validator.py", f"SubstitutorValidator.{_m}", props=(), trusted=True,
+             note="assumed: verdict = uninterpreted rvalid(schema, value); raises nothing")(
+        (lambda cls_: (lambda c: relaxed_container_visit(c, cls_)))(_cls))
